@@ -364,6 +364,33 @@ type vRunner struct {
 	tests map[string]*vT
 	cfgs  []*Config
 	idx   int
+	// matcher values are reused for identical specs within a case, the way a table test
+	// shares one matcher across documents
+	mcache map[string][]match.JSONMatcher
+}
+
+func (r *vRunner) matchers(ms []vMatcher) []match.JSONMatcher {
+	if len(ms) == 0 {
+		return nil
+	}
+	key, _ := json.Marshal(ms)
+	if r.mcache == nil {
+		r.mcache = map[string][]match.JSONMatcher{}
+	}
+	if m, ok := r.mcache[string(key)]; ok {
+		return m
+	}
+	m := vBuildJSONMatchers(ms)
+	r.mcache[string(key)] = m
+	return m
+}
+
+func (r *vRunner) yamlMatchers(ms []vMatcher) []match.YAMLMatcher {
+	res := []match.YAMLMatcher{}
+	for _, jm := range r.matchers(ms) {
+		res = append(res, jm.(match.YAMLMatcher))
+	}
+	return res
 }
 
 func (r *vRunner) t(name string) *vT {
@@ -467,7 +494,7 @@ func (r *vRunner) doMatch(o vOp) {
 			pre = "invalid"
 		} else {
 			j = append([]byte{}, j...)
-			j2, merrs := applyJSONMatchers(j, vBuildJSONMatchers(o.Matchers)...)
+			j2, merrs := applyJSONMatchers(j, r.matchers(o.Matchers)...)
 			if len(merrs) > 0 {
 				pre = "matcherr"
 			} else {
@@ -476,7 +503,7 @@ func (r *vRunner) doMatch(o vOp) {
 			}
 		}
 		input := vInput(o.Form, doc)
-		ms := vBuildJSONMatchers(o.Matchers)
+		ms := r.matchers(o.Matchers)
 		if o.API == "json" {
 			call = func() {
 				if cfg == nil {
@@ -501,7 +528,7 @@ func (r *vRunner) doMatch(o vOp) {
 			pre = "invalid"
 		} else {
 			y = append([]byte{}, y...)
-			y2, merrs := applyYAMLMatchers(y, vBuildYAMLMatchers(o.Matchers)...)
+			y2, merrs := applyYAMLMatchers(y, r.yamlMatchers(o.Matchers)...)
 			if len(merrs) > 0 {
 				pre = "matcherr"
 			} else {
@@ -509,7 +536,7 @@ func (r *vRunner) doMatch(o vOp) {
 			}
 		}
 		input := vInput(o.Form, doc)
-		ms := vBuildYAMLMatchers(o.Matchers)
+		ms := r.yamlMatchers(o.Matchers)
 		call = func() {
 			if cfg == nil {
 				MatchYAML(t, input, ms...)
@@ -602,6 +629,7 @@ func (r *vRunner) run(c vCase) {
 	r.tests = map[string]*vT{}
 	r.cfgs = nil
 	r.idx = 0
+	r.mcache = nil
 	_, callerFile := vCaller()
 	fmt.Fprintf(r.w, "op init caller=%s defdir=%s ci=%s upd=%s colour=%s\n",
 		vhex([]byte(callerFile)), vhex([]byte(r.sb.virt(defdir))), vb(c.CI), c.Upd, vb(c.Col))
